@@ -832,6 +832,8 @@ class AsyncRun:
                     k, only = c + 1, "src"       # let hot X_{c+1}'s callback fire the awaited X_c
                 try:
                     self.act(k, only)
+                    if only and h.outcome[c] is None and h.cur == c and not self.fired:
+                        self.act(c)          # the hot callback was held back (paused): this step still fires X_c itself
                 except BaseException as e:  # noqa
                     return self.violation("exception-leaked-to-firer-of-awaited-deferred", "firing / unpausing an awaited Deferred raised", k=k, error=repr(e)[:200])
             if len(self.fired) > 1:
